@@ -1,5 +1,5 @@
 class VersionConversion:
 
-  def _to_gfa1_a(self): return self.to_list()
-  def _to_gfa2_a(self): return self.to_list()
+  def _to_gfa1_a(self): return [str(self)]
+  def _to_gfa2_a(self): return [str(self)]
 
